@@ -83,6 +83,7 @@ var vTemplates = [...]struct{ pre, post string }{
 	69: {"", "/2.0 200 OK\r\nf:a\r\n\r\n"}, // the version token of a reply (any letter case)
 	70: {"", "/2.0 200 OK\r\nX"},
 	71: {"INVITE sip:a SIP/2.0\r\nm:<a>;expires=6\r\nContact: \"B\" <b>;tag=z", "\r\nm:<c>\r\nl:0\r\n\r\n"}, // three Contact headers
+	72: {"INVITE sip:a SIP/2.0\r\nm:<a>;lr", ", <b>\r\nl:0\r\n\r\n"},                                        // between a valueless parameter and the comma
 }
 
 // vTpl builds template t with a window of w symbolic bytes.
